@@ -28,7 +28,7 @@ var Check = &ev.Check{
 		"{i32, string, each definition expressible from its file (same file or an included one), list<each definition>, one undefined name; constants: int, string, each constant, each enum item}, in layouts {one file; two files f0->f1 with every assignment of definitions to files; two files including each other; chain f0->f1->f2; siblings f0->{f1,f2}, f1->f2; diamond f0->{f1,f2}->f3; samebase f0->{f1,f2}, f2->d/f1.thrift (two files with one base name)}. " +
 		"schedules: for each program every map-iteration order at every `range`-over-map execution in package compile (all n! orders for n<=4 keys) with at most 1 (quick) / 2 (thorough) deviating range executions per compile, and every permutation of the definitions within each file. " +
 		"A state is a node of the choice tree (a prefix of order choices); a transition is one order choice; every execution is a run of the real compiler built from /repo's tree. " +
-		"Oracle: all executions of one program agree on success/failure and on the canonical dump of the module graph, and on success the dump equals ref/resolve's. distinct_nontrivial = programs with at least one reference between definitions.",
+		"Oracle: all executions of one program agree on success/failure and on the canonical dump of the module graph, and on success the dump equals ref/resolve's. Plus named single programs (constants whose type leads back to them through includes, literals that spell out a back reference, container constants referenced under other element types) compiled from every file as root under every order: accepted, one description, and the constants have the stated values. distinct_nontrivial = programs with at least one reference between definitions.",
 	Run: run,
 	Budget: func(t string) time.Duration {
 		return map[string]time.Duration{"quick": 4 * time.Minute, "thorough": 25 * time.Minute}[t]
